@@ -5,6 +5,7 @@
 //! `mmap` results, and a set of cooperative yield points.  The simulator itself lives outside
 //! this repository; it installs an implementation of [`rt::SimRuntime`].
 
+pub mod export;
 pub mod introspect;
 pub mod rt;
 pub mod sync;
